@@ -174,18 +174,13 @@ def mergeGlobalOld (d : Nat) (sizes : List Nat) (ivs : List Iv) : Option (List I
     | none => none
     | some m => omap (toLocalIv sizes) m
 
-/-- maximal runs of equal chromosome (`groupby(intervals, "chromosome")`) -/
-def runsGo (c : Nat) (cur : List Iv) : List Iv → List (Nat × List Iv)
-  | [] => [(c, cur.reverse)]
-  | x :: r => if x.c = c then runsGo c (x :: cur) r else (c, cur.reverse) :: runsGo x.c [x] r
-
+/-- maximal runs of equal chromosome, in order (`groupby(intervals, "chromosome")`) -/
 def runs : List Iv → List (Nat × List Iv)
   | [] => []
-  | x :: r => runsGo x.c [x] r
-
-def chromSorted : List Iv → Bool
-  | x :: y :: r => x.c ≤ y.c && chromSorted (y :: r)
-  | _ => true
+  | x :: r =>
+    match runs r with
+    | g :: t => if x.c = g.1 then (g.1, x :: g.2) :: t else (x.c, [x]) :: g :: t
+    | [] => [(x.c, [x])]
 
 /-- merge of one chromosome's entries, re-attached to the chromosome -/
 def mergeChrom (d : Nat) (c : Nat) (l : List Iv) : Option (List Iv) :=
@@ -195,15 +190,11 @@ def mergeChrom (d : Nat) (c : Nat) (l : List Iv) : Option (List Iv) :=
 
 /-- the repaired rule: group by chromosome, merge every group with the single-contig function -/
 def mergeFixed (d : Nat) (ivs : List Iv) : Option (List Iv) :=
-  match omap (fun g => mergeChrom d g.1 g.2) (runs ivs) with
-  | none => none
-  | some ms => some ms.flatten
+  (omap (fun g => mergeChrom d g.1 g.2) (runs ivs)).map List.flatten
 
 /-- specification: for every chromosome in genome order, the single-contig merge of its own entries -/
 def specMerge (d : Nat) (n : Nat) (ivs : List Iv) : Option (List Iv) :=
-  match omap (fun c => mergeChrom d c (ivs.filter (fun iv => iv.c = c))) (List.range n) with
-  | none => none
-  | some ms => some ms.flatten
+  (omap (fun c => mergeChrom d c (ivs.filter (fun iv => iv.c = c))) (List.range n)).map List.flatten
 
 /-! ## Clip, extend to size, windows (size looked up by the row's own chromosome) -/
 
@@ -232,10 +223,10 @@ def windowG (sizes : List Nat) (fl : Int × Int) (c : Nat) (p : Int) (fwd : Bool
   clipG sizes { c := c, s := p - fl.1, e := p + fl.2, fwd := fwd }
 
 /-- `get_location(where)`; `w` = 0 start, 1 stop, 2 center -/
-def location (stranded : Bool) (w : Nat) (iv : Iv) : Nat :=
-  if w = 2 then (iv.s + iv.e) / 2
+def location (stranded : Bool) (w : Nat) (iv : Iv) : Int :=
+  if w = 2 then ((iv.s + iv.e) / 2 : Nat)
   else if !stranded then iv.s
-  else if iv.fwd == (w == 0) then iv.s else iv.e - 1
+  else if iv.fwd == (w == 0) then iv.s else (iv.e : Int) - 1
 
 /-! ## Sorting in genome order -/
 
